@@ -142,6 +142,13 @@ def native_replay(prop, job, workdir, requests, tag, race=False, timeout=600):
         outp = os.path.join(workdir, "rw_" + tag + "_" + os.path.basename(rw["file"]))
         open(outp, "w").write(src)
         repl[os.path.join(REPO, rw["file"])] = outp
+    for yf in job.get("yieldify", []):
+        real = os.path.join(REPO, yf)
+        srcp = repl.get(real, real)
+        outp = os.path.join(workdir, "yield_" + tag + "_" + os.path.basename(yf))
+        r = sh([GOSMT, "yieldify", srcp, outp])
+        if r.returncode == 0:
+            repl[real] = outp
     ofile = os.path.join(workdir, "overlay_%s_%s.json" % (gopkg, tag))
     json.dump({"Replace": repl}, open(ofile, "w"), indent=1)
     rfile = os.path.join(workdir, "requests_%s_%s.json" % (gopkg, tag))
@@ -301,18 +308,10 @@ def cmd_run(prop, tier, seed):
                              repeat=exp.get("repeat", 1)))
             meta.append((entry, check, v, mode, exp))
         res, out, paths = native_replay(prop, job, workdir, reqs, "viol", race=any(m[4].get("race") for m in meta))
-        cursor = {}
-        for (entry, check, v, mode, exp) in meta:
-            got = res.get(entry, [])
-            # results come in request order; consume sequentially per entry
+        allres = [g for lst in res.values() for g in lst]
+        for ri, (entry, check, v, mode, exp) in enumerate(meta):
             reps = exp.get("repeat", 1)
-            start = cursor.get(entry, 0)
-            chunk = []
-            while start < len(got) and len(chunk) < reps:
-                chunk.append(got[start]); start += 1
-                if chunk[-1]["timeout"]:
-                    break
-            cursor[entry] = start
+            chunk = [g for g in allres if g.get("req") == ri]
             reproduced = False
             for g in chunk:
                 if check == "nopanic":
@@ -327,7 +326,7 @@ def cmd_run(prop, tier, seed):
                 reproduced = True
             rec = dict(property=prop, entry=entry, check=check, model=v["model"], note=v.get("note"), trace=v.get("trace"),
                        sched=v.get("sched"), job=dict(pkg=job["pkg"], gopkg=job["gopkg"], files=job["files"],
-                                                      native_rewrites=job.get("native_rewrites", [])),
+                                                      native_rewrites=job.get("native_rewrites", []), yieldify=job.get("yieldify", [])),
                        native=chunk, reproduced=reproduced, replay=dict(repeat=reps, timeout_ms=exp.get("timeout_ms", 8000), race=bool(exp.get("race"))))
             h = hashlib.md5(json.dumps([entry, check, v["model"]], sort_keys=True).encode()).hexdigest()[:10]
             path = os.path.join(ROOT, "replays", "%s-%s.json" % (prop, h))
